@@ -28,6 +28,23 @@ def _strip_literal():
     return lits[0], joins[0]
 
 
+def _fn_literals(path, name):
+    """sorted set of the string constants in the body of top-level function `name` (docstring excluded)"""
+    tree = ast.parse(open(path).read())
+    fn = [n for n in tree.body if isinstance(n, ast.FunctionDef) and n.name == name]
+    if len(fn) != 1:
+        raise RuntimeError(f"{name} not found exactly once in {path}")
+    body = fn[0].body
+    if body and isinstance(body[0], ast.Expr) and isinstance(body[0].value, ast.Constant) and isinstance(body[0].value.value, str):
+        body = body[1:]
+    lits = set()
+    for st in body:
+        for n in ast.walk(st):
+            if isinstance(n, ast.Constant) and isinstance(n.value, str):
+                lits.add(n.value)
+    return sorted(lits)
+
+
 @generator("Paths")
 def gen_paths():
     sec = importlib.import_module("werkzeug.security")
@@ -43,6 +60,27 @@ def gen_paths():
         raise RuntimeError("os.sep / os.path.altsep: expected single characters")
     spaces = [c for c in range(0x110000) if chr(c).isspace()]
     strip_lit, join_lit = _strip_literal()
+    devices = sorted(utils._windows_device_files)
+    if not all(isinstance(d, str) and d.isascii() for d in devices):
+        raise RuntimeError("_windows_device_files: expected ASCII strings")
+    uppers = []
+    for c in range(128):
+        u = chr(c).upper()
+        if len(u) != 1:
+            raise RuntimeError("str.upper on ASCII: expected single characters")
+        uppers.append(ord(u))
+    import posixpath
+
+    for name in ("sep", "curdir", "pardir"):
+        if not isinstance(getattr(posixpath, name), str):
+            raise RuntimeError("posixpath." + name)
+    import unicodedata
+
+    nfkd_ascii = all(unicodedata.normalize("NFKD", chr(a)) == chr(a) for a in range(128)) and all(
+        unicodedata.normalize("NFKD", chr(a) + chr(b)) == chr(a) + chr(b) for a in range(128) for b in range(128)
+    )
+    sj_lits = _fn_literals(os.path.join(REPO, "src", "werkzeug", "security.py"), "safe_join")
+    sf_lits = _fn_literals(os.path.join(REPO, "src", "werkzeug", "utils.py"), "secure_filename")
     body = f"""namespace Wz.Gen.Paths
 
 /-- `werkzeug.security._os_alt_seps` (single characters; empty on POSIX). -/
@@ -68,6 +106,35 @@ def joinChars : List Char := {lean_str(join_lit)}.toList
 
 /-- code points for which `str.isspace()` holds (what `str.split()` splits on). -/
 def pySpaces : List Nat := {lean_list([str(c) for c in spaces])}
+
+/-- `sorted(werkzeug.utils._windows_device_files)` -/
+def windowsDeviceFiles : List String := {lean_list([lean_str(d) for d in devices], 8)}
+
+/-- `ord(chr(c).upper())` for c = 0..127 (what `str.upper` does to ASCII text) -/
+def upperAscii : List Nat := {lean_list([str(u) for u in uppers])}
+
+/-- `_filename_ascii_strip_re.pattern` and `.flags` (re.UNICODE = 32 is the str default) -/
+def stripRePattern : String := {lean_str(rx.pattern)}
+def stripReFlags : Nat := {int(rx.flags)}
+
+/-- the only law assumed of the opaque `unicodedata.normalize("NFKD", ·)`: identity on ASCII text -
+evaluated here on every ASCII string of length 1 and 2 -/
+def nfkdAsciiIdentity : Bool := {lean_bool(nfkd_ascii)}
+
+/-- `os.sep`, `os.path.altsep` on the generating platform (`none` = `None`) -/
+def osSep : String := {lean_str(os.sep)}
+def osAltsep : Option String := {"none" if os.path.altsep is None else "some " + lean_str(os.path.altsep)}
+
+/-- `posixpath.sep / curdir / pardir`: the constants the hand model of normpath / join hard-codes -/
+def posixSep : String := {lean_str(posixpath.sep)}
+def posixCurdir : String := {lean_str(posixpath.curdir)}
+def posixPardir : String := {lean_str(posixpath.pardir)}
+
+/-- every string literal in the body of `security.safe_join` (docstring excluded), sorted -/
+def safeJoinLiterals : List String := {lean_list([lean_str(x) for x in sj_lits], 8)}
+
+/-- every string literal in the body of `utils.secure_filename` (docstring excluded), sorted -/
+def secureFilenameLiterals : List String := {lean_list([lean_str(x) for x in sf_lits], 8)}
 
 end Wz.Gen.Paths
 """
@@ -100,20 +167,124 @@ def _glue_facts(fn, var):
     return assigns, sorted(set(calls))
 
 
+def _if_tests(node):
+    """tests of every `if` (statement or expression) under `node`, in source order"""
+    out = []
+    for n in ast.walk(node):
+        if isinstance(n, (ast.If, ast.IfExp)):
+            out.append((n.lineno, n.col_offset, ast.unparse(n.test)))
+    return [t for _l, _c, t in sorted(out)]
+
+
+def _call_args(node, callee):
+    """argument texts of every call of `callee` under `node`, in source order"""
+    out = []
+    for n in ast.walk(node):
+        if isinstance(n, ast.Call) and ast.unparse(n.func) == callee:
+            args = [ast.unparse(a) for a in n.args] + [(f"{k.arg}=" if k.arg else "**") + ast.unparse(k.value) for k in n.keywords]
+            out.append((n.lineno, n.col_offset, ", ".join(args)))
+    return [t for _l, _c, t in sorted(out)]
+
+
+def _returns(fn):
+    """texts of the values returned by `fn` itself (nested lambdas / defs excluded), in source order"""
+    out = []
+
+    def visit(n):
+        for ch in ast.iter_child_nodes(n):
+            if isinstance(ch, (ast.FunctionDef, ast.Lambda)):
+                continue
+            if isinstance(ch, ast.Return):
+                v = ch.value
+                if isinstance(v, ast.Tuple) and len(v.elts) == 2:
+                    # only the *first* element (real_filename) and the opener's argument matter here
+                    second = v.elts[1]
+                    txt = ast.unparse(v.elts[0]) + " | " + (ast.unparse(second) if not isinstance(second, ast.Lambda) else "<lambda>")
+                else:
+                    txt = ast.unparse(v) if v is not None else "None"
+                out.append((ch.lineno, txt))
+            visit(ch)
+
+    visit(fn)
+    return [t for _l, t in sorted(out)]
+
+
+def _str_list(name, doc, items, per_line=1):
+    return f"/-- {doc} -/\ndef {name} : List String := {lean_list([lean_str(a) for a in items], per_line)}\n"
+
+
 @generator("StaticGlue")
 def gen_static_glue():
     """AST facts about the static-file helpers: what is assigned to the joined path after safe_join,
-    and which functions are called at all (no decoding / rewriting behind the containment check)"""
+    which functions are called at all (no decoding / rewriting behind the containment check), and the
+    shape of the export loop of SharedDataMiddleware.__call__ / __init__ / the file loader / send_file"""
     utils = ast.parse(open(os.path.join(REPO, "src", "werkzeug", "utils.py")).read())
     sdm = ast.parse(open(os.path.join(REPO, "src", "werkzeug", "middleware", "shared_data.py")).read())
+    dir_loader = _fn(sdm, ["SharedDataMiddleware", "get_directory_loader", "loader"])
+    pkg_loader = _fn(sdm, ["SharedDataMiddleware", "get_package_loader", "loader"])
     facts = {
         "sfd": _glue_facts(_fn(utils, ["send_from_directory"]), "path_str"),
-        "dirLoader": _glue_facts(_fn(sdm, ["SharedDataMiddleware", "get_directory_loader", "loader"]), "path"),
-        "pkgLoader": _glue_facts(_fn(sdm, ["SharedDataMiddleware", "get_package_loader", "loader"]), "path"),
+        "dirLoader": _glue_facts(dir_loader, "path"),
+        "pkgLoader": _glue_facts(pkg_loader, "path"),
     }
     defs = []
     for k, (assigns, calls) in facts.items():
         defs.append(f"/-- right-hand sides assigned to the joined path variable -/\ndef {k}Assigns : List String := {lean_list([lean_str(a) for a in assigns], 1)}\n")
         defs.append(f"/-- every function called in the body -/\ndef {k}Calls : List String := {lean_list([lean_str(c) for c in calls], 1)}\n")
+
+    # --- SharedDataMiddleware.__call__: the export loop
+    call = _fn(sdm, ["SharedDataMiddleware", "__call__"])
+    loops = [n for n in ast.walk(call) if isinstance(n, ast.For)]
+    if len(loops) != 1:
+        raise RuntimeError("SharedDataMiddleware.__call__: expected exactly one for loop")
+    loop = loops[0]
+    path_assigns, _ = _glue_facts(call, "path")
+    search_assigns, _ = _glue_facts(call, "search_path")
+    _, loop_calls = _glue_facts(loop, "path")
+    gate = [ast.unparse(n.test) for n in call.body if isinstance(n, ast.If)]
+    defs.append(_str_list("callPathAssigns", "`__call__`: right-hand sides assigned to `path` (the request path the exports are matched against)", path_assigns))
+    defs.append(_str_list("callSearchAssigns", "`__call__`: assignments to `search_path` besides the loop target", search_assigns))
+    defs.append(_str_list("callLoopHead", "`__call__`: target and iterable of the export loop", [ast.unparse(loop.target), ast.unparse(loop.iter)]))
+    defs.append(_str_list("callLoopTests", "`__call__`: the `if` tests inside the export loop, in source order", _if_tests(loop)))
+    defs.append(_str_list("callLoaderArgs", "`__call__`: arguments of the `loader(...)` calls, in source order", _call_args(loop, "loader")))
+    defs.append(_str_list("callLoopCalls", "`__call__`: every function called inside the export loop", loop_calls))
+    defs.append(_str_list("callGate", "`__call__`: the tests of the top-level `if` statements after the loop (first = fall through to the app)", gate[:1]))
+    breaks = sum(isinstance(n, ast.Break) for n in ast.walk(loop))
+    conts = sum(isinstance(n, ast.Continue) for n in ast.walk(loop))
+    defs.append(f"/-- `__call__`: number of `break` / `continue` statements in the export loop -/\ndef callLoopBreaks : Nat := {breaks}\ndef callLoopContinues : Nat := {conts}\n")
+
+    # --- loaders: what they return and what they open
+    file_loader = _fn(sdm, ["SharedDataMiddleware", "get_file_loader"])
+    defs.append(_str_list("fileLoaderReturns", "`get_file_loader`: the returned loader", _returns(file_loader)))
+    defs.append(_str_list("dirLoaderReturns", "directory loader: `real_filename | opener` of every return", _returns(dir_loader)))
+    defs.append(_str_list("pkgLoaderReturns", "package loader: `real_filename | opener` of every return", _returns(pkg_loader)))
+    defs.append(_str_list("dirLoaderTests", "directory loader: `if` tests in source order", _if_tests(dir_loader)))
+    defs.append(_str_list("pkgLoaderTests", "package loader: `if` tests in source order", _if_tests(pkg_loader)))
+    defs.append(_str_list("pkgOpenArgs", "package loader: arguments of `reader.open_resource`", _call_args(pkg_loader, "reader.open_resource")))
+    opener = _fn(sdm, ["SharedDataMiddleware", "_opener"])
+    defs.append(_str_list("openerOpenArgs", "`_opener`: arguments of `open`", _call_args(opener, "open")))
+
+    # --- __init__: which loader an export value gets
+    init = _fn(sdm, ["SharedDataMiddleware", "__init__"])
+    iloops = [n for n in ast.walk(init) if isinstance(n, ast.For)]
+    if len(iloops) != 1:
+        raise RuntimeError("SharedDataMiddleware.__init__: expected exactly one for loop")
+    loader_assigns, _ = _glue_facts(iloops[0], "loader")
+    exports_assigns, _ = _glue_facts(init, "exports")
+    defs.append(_str_list("initLoopHead", "`__init__`: target and iterable of the exports loop", [ast.unparse(iloops[0].target), ast.unparse(iloops[0].iter)]))
+    defs.append(_str_list("initTests", "`__init__`: `if` tests of the exports loop, in source order", _if_tests(iloops[0])))
+    defs.append(_str_list("initLoaderAssigns", "`__init__`: loaders assigned, in source order", loader_assigns))
+    defs.append(_str_list("initExportsAssigns", "`__init__`: re-assignments of `exports`", exports_assigns))
+    defs.append(_str_list("initAppendArgs", "`__init__`: what is appended to `self.exports`", _call_args(init, "self.exports.append")))
+    defs.append(_str_list("initAllowed", "`__init__`: the `is_allowed` override installed by `disallow`", [ast.unparse(n.value) for n in ast.walk(init) if isinstance(n, ast.Assign) and ast.unparse(n.targets[0]) == "self.is_allowed"]))
+
+    # --- send_from_directory / send_file: the `_root_path` joins and what is opened
+    sfd = _fn(utils, ["send_from_directory"])
+    send_file = _fn(utils, ["send_file"])
+    sf_path_assigns, _ = _glue_facts(send_file, "path")
+    defs.append(_str_list("sfdTests", "`send_from_directory`: `if` tests in source order", _if_tests(sfd)))
+    defs.append(_str_list("sfdSendFileArgs", "`send_from_directory`: arguments of the final `send_file` call", _call_args(sfd, "send_file")))
+    defs.append(_str_list("sendFilePathAssigns", "`send_file`: assignments to `path` (the file that is opened)", sf_path_assigns))
+    defs.append(_str_list("sendFileOpenArgs", "`send_file`: arguments of `open`", _call_args(send_file, "open")))
     body = "namespace Wz.Gen.StaticGlue\n\n" + "\n".join(defs) + "\nend Wz.Gen.StaticGlue\n"
     return write("StaticGlue", body, "src/werkzeug/utils.py, src/werkzeug/middleware/shared_data.py")
